@@ -15,6 +15,26 @@ CHECKS = {
         note="exhaustive within <=3 trajectories, length <=3..8, lag <=2..5 (see evidence tlc_runs); trusts TLC, the "
              "PySlice module (self-tested against CPython) and the JSON emission path",
         ref="6/C03"),
+    "C04": dict(
+        technique="TLA+ spec (Builders.tla, exact rationals) model-checked with TLC + spec->code replay in 8 containers; mle part by TLC trace validation of recorded runs (MLE.tla)",
+        text="TLC checks on the step-by-step transcription of normalize/transpose (prior, symmetrise, row-normalise with zero-row "
+             "guard, populations) that the result is row-stochastic, stationary (Markov-chain tree theorem), reversible, "
+             "prior-first and leaves the caller's matrix unchanged, and emits exact rational expectations for every count matrix "
+             "in scope; the driver replays each into the real builders for ndarray and the seven sparse-matrix formats with both "
+             "calculate_eq_probs settings and compares values (1e-12/1e-9), container types and the caller's matrix. builders.mle "
+             "is run in every container, its outputs recorded as scaled integers and validated by TLC against MLE.tla.",
+        note="exhaustive within n<=3, entries <=3 (quick) / <=4,<=2 (thorough); sparse arrays (csr_array, ...) are outside the property's quantifier; stationarity only where the chain is strongly connected",
+        ref="6/C04"),
+    "C12": dict(
+        technique="TLC trace validation (MLE.tla) of recorded runs of both estimator implementations on TLC-enumerated inputs",
+        text="Every strongly connected count matrix enumerated by TLC in scope (plus seeded random real-valued and strongly "
+             "asymmetric ones) is fed to _prinz_mle_py and libmsm._mle_prinz_dense (also with iteration caps 1 and 2); start / warn / "
+             "return / raise events with outputs as scaled integers are validated by TLC against the control-flow machine and "
+             "acceptance relation of MLE.tla: never crashes, row-stochastic, support, Prinz self-consistency (integer-coefficient "
+             "linear equations), detailed balance, stationarity, likelihood dominance over logged reversible competitors, and "
+             "agreement of the two implementations. A verdict per trace names the failing clause.",
+        note="relation tolerances 1e-4 (32-bit integer budget); dominance is checked against the transpose estimate and <=7 perturbed competitors plus the exact stationarity certificate, not against all reversible matrices; log-likelihood numbers come from the projection",
+        ref="6/C12"),
 }
 
 ENGINES = [
